@@ -62,7 +62,7 @@ def build(d):
             gid = G.division_connected_variable_groups(s, group_size=a2)
             gl = [gid[y, x] for y in range(h) for x in range(w)]
         else:
-            g = E.mk_graph(n, edges)
+            g = E.mk_graph(n, edges, d.get("history"))
             a1 = IntArray1D(arg) if d["form"] == "array1d" else arg
             gid = G.division_connected_variable_groups(s, graph=g, group_size=a1)
             if not isinstance(gid, IntArray1D) or len(gid) != n:
@@ -105,7 +105,7 @@ def build(d):
         edges = bedges
     else:
         bflags = E.bool_items(s, len(edges), d.get("mode", "vars"))
-        g = E.mk_graph(n, edges)
+        g = E.mk_graph(n, edges, d.get("history"))
         gs = arg if (arg is None or isinstance(arg, list)) else [arg] * n
         import cspuz
         saved = (cspuz.config.use_graph_primitive, cspuz.config.use_graph_division_primitive)
@@ -171,6 +171,11 @@ def instances(tier, rng):
                 for prim in (False, True):
                     out.append(dict(name="%s/borders/s%d/pr%d" % (nm, ki, prim), fn="borders", form="list" if ki % 2 else "array1d",
                                     n=n, edges=es, size=kind, primitive=prim))
+        if len(es) >= 2:
+            # histories: the Graph object was used (and its line graph taken) before its last edges were added
+            out.append(dict(name="%s/groups/s0/hist" % nm, fn="groups", form="list", n=n, edges=es, size="none", history=len(es) // 2))
+            out.append(dict(name="%s/borders/s0/pr0/hist" % nm, fn="borders", form="list", n=n, edges=es, size="none", primitive=False,
+                            history=len(es) // 2))
         if 1 <= len(es) <= 4:
             for cfg in ([True, False], [False, True]):
                 out.append(dict(name="%s/borders/config%d%d" % (nm, cfg[0], cfg[1]), fn="borders", form="list", n=n, edges=es, size="none",
